@@ -328,6 +328,8 @@ def landmark_chooser(sch_getter, plan, state_pred=None):
        ('done',)                     until the thread finishes
        ('line', func, lineno, nth)   until the thread is parked for the nth time (since the phase began)
                                      just before executing that source line
+       ('kind', kind, nth)           until the thread is parked for the nth time at a yield of that kind
+                                     ('release' = just released the cache lock, 'op' = finished an operation)
        ('pred', name)                until state_pred(name) is true at a scheduling point of that thread
      After the plan: non-pre-emptive default."""
   st = dict(i=0, count=0)
@@ -344,6 +346,13 @@ def landmark_chooser(sch_getter, plan, state_pred=None):
         if cur == th and sc.last_kind.get(th) == 'line' and sc.last_line.get(th) == (cond[1], cond[2]):
           st['count'] += 1
           if st['count'] >= cond[3]:
+            st['i'] += 1
+            st['count'] = 0
+            continue
+      elif cond[0] == 'kind':
+        if cur == th and sc.last_kind.get(th) == cond[1]:
+          st['count'] += 1
+          if st['count'] >= cond[2]:
             st['i'] += 1
             st['count'] = 0
             continue
